@@ -186,6 +186,12 @@ theorem runVec_facts (binary : Bool) (k : RdKind) (act : VecAct) (n : Nat) (inp 
     obtain ⟨a, b, c, d, _⟩ := this
     refine ⟨by simp, a, ⟨c, d, ?_⟩⟩
     rcases b with h | h | h <;> simp [h, Code.documented]
+  | whileNz =>
+    have := vecLoop_facts binary k n n inp
+    simp only at this ⊢
+    obtain ⟨a, b, c, d, _⟩ := this
+    refine ⟨by simp, a, ⟨c, d, ?_⟩⟩
+    rcases b with h | h | h <;> simp [h, Code.documented]
   | some j =>
     have := vecLoop_facts binary k (min j n) n inp
     simp only at this ⊢
